@@ -309,12 +309,18 @@ def solve_hist(ctx, rng, idx):
     tsave_arg = tsave if form == "list" else tuple(tsave) if form == "tuple" else np.array(tsave, dtype=float)
     cfl_arg = cfl if rng.random() < 0.7 else np.float64(cfl)
     ctx.describe(tsave_given_as=form, cfl_given_as=type(cfl_arg).__name__)
+    stop_arg = dict(stop) if stop else None
+    dirs_arg = dict(directives)
     try:
-        call(f, cfl_arg, tsave_arg, stop=stop or None, directives=directives)
+        call(f, cfl_arg, tsave_arg, stop=stop_arg, directives=dirs_arg)
     except np.linalg.LinAlgError:
         raise core.Skip("singular implicit system")
     finally:
         logs = list(solvelog.LOGS)
+    # the caller's other argument objects hold what the caller wrote (a dictionary or list changed in place would carry one call's
+    # settings into the next one)
+    ctx.true("caller-arguments", (stop_arg == (dict(stop) if stop else None)) and dirs_arg == dict(directives) and len(tsave_arg) == len(tsave) and all(float(a_) == float(b_) for a_, b_ in zip(tsave_arg, tsave)),
+             "solve/caller-arguments-modified", {"stop after": stop_arg, "stop given": stop, "directives after": dirs_arg, "tsave after": list(map(float, tsave_arg))}, cls="caller-field")
     if not logs:
         ctx.true("log", False, "solve/raised-before-returning", None)
         return
